@@ -317,8 +317,16 @@ func (e *Engine) builtin(p *Path, name string, cc *ssa.CallCommon, args []Value,
 	case "clear":
 		switch a := args[0].(type) {
 		case MapV:
-			if a.obj != 0 {
-				e.wobj(p.st, a.obj).cells = nil
+			for _, al := range a.alts {
+				if al.g.IsTrue() || len(a.alts) == 1 {
+					e.wobj(p.st, al.obj).cells = nil
+				} else {
+					o := e.wobj(p.st, al.obj)
+					for i, c := range o.cells {
+						en := c.(StructV)
+						o.cells[i] = StructV{[]Value{en.f[0], en.f[1], e.And(en.f[2].(*Term), e.Not(al.g))}}
+					}
+				}
 			}
 			return nil
 		case SliceV:
@@ -465,7 +473,7 @@ func (e *Engine) next(p *Path, x *ssa.Next) []Result {
 		o.cells[0] = e.Const(64, uint64(pos))
 		// the entry is visited if it was present at range time and has not been deleted since
 		pres := en.f[2].(*Term)
-		if it.m.obj != 0 {
+		if len(it.m.alts) != 0 {
 			_, still := e.mapLookup(cur.st, it.m, en.f[0], e.zero(cur.st, mt.Elem()))
 			pres = e.And(pres, still)
 		}
